@@ -86,7 +86,7 @@ var sessNames = []string{"x", "y", "s", "flag", "o", "u"}
 var sessLocals = []string{"$a", "$b", "$c", "$"} // "$" alone is a $-prefixed name too
 var sessKeys = []string{"k1", "k2", "x", "$a", "user", "user.name", "v1.2", ""}
 var sessStrings = []string{"a", "b", "ab", "k1", "", "zz", "a b", " ", "héllo", "小明", "true", "null", "$a", "x", "A"}
-var sessStubs = []string{"rec", "put", "get", "fail", "pair"}
+var sessStubs = []string{"rec", "put", "get", "fail", "pair", "cat", "poke"}
 
 // ---------------------------------------------------------------- harness side of one runner
 
@@ -171,6 +171,28 @@ func (sr *sessRunner) stubs(into map[string]interface{}, names map[string]bool) 
 				return nil, err
 			}
 			return []interface{}{a, b}, nil
+		}
+	}
+	if names["cat"] {
+		into["cat"] = func(a interface{}, rest ...interface{}) (interface{}, error) {
+			all := append([]interface{}{a}, rest...)
+			if err := sr.enter("cat", all...); err != nil {
+				return nil, err
+			}
+			return all, nil
+		}
+	}
+	if names["poke"] {
+		into["poke"] = func(m interface{}, k string, v interface{}) (interface{}, error) {
+			if err := sr.enter("poke", k, v); err != nil {
+				return nil, err
+			}
+			mm, ok := m.(map[string]interface{})
+			if !ok || mm == nil {
+				return nil, errors.New("poke: no map")
+			}
+			mm[k] = v
+			return v, nil
 		}
 	}
 	if names["put"] {
@@ -390,6 +412,12 @@ func (g *mgen) build(want int, d int) (*MNode, MV) {
 	}
 	choice := g.s.Intn(12)
 	switch {
+	case choice == 0 && g.has("poke") && g.s.Intn(4) == 0:
+		// the host binds a local itself, through the map that `this` hands it
+		rhs, v := g.build(want, d+1)
+		nm := sessLocals[g.s.Intn(len(sessLocals))]
+		g.m.setEntry(nm, v)
+		return &MNode{Op: nCall, Name: "poke", Kids: []*MNode{{Op: nThis}, lit(mStr(nm)), rhs}}, v
 	case choice == 0: // assignment: has the value of its right-hand side
 		rhs, v := g.build(want, d+1)
 		n := &MNode{Op: nAssign, Name: sessLocals[g.s.Intn(len(sessLocals))], Kids: []*MNode{rhs}}
@@ -505,6 +533,24 @@ func (g *mgen) build(want int, d int) (*MNode, MV) {
 			v = mNull()
 		}
 		return &MNode{Op: nCall, Name: "get", Kids: []*MNode{lit(mStr(key))}}, v
+	case choice == 9 && want == wAny && g.has("cat") && g.s.Bool(1, 2):
+		// a fixed parameter and a variadic tail; the tail is sometimes spread from an array literal
+		a, av := g.build(1+g.s.Intn(3), d+1)
+		var b *MNode
+		var bv MV
+		if g.s.Intn(3) == 0 { // the first argument binds a local that the tail reads
+			nm := sessLocals[g.s.Intn(len(sessLocals))]
+			a = &MNode{Op: nAssign, Name: nm, Kids: []*MNode{a}}
+			g.m.setEntry(nm, av)
+			b, bv = nameNode(nm), av
+		} else {
+			b, bv = g.build(1+g.s.Intn(3), d+1)
+		}
+		c, cv := g.build(1+g.s.Intn(3), d+1)
+		if g.s.Bool(1, 2) {
+			return &MNode{Op: nCall, Name: "cat", Raw: "spread", Kids: []*MNode{a, {Op: nArray, Kids: []*MNode{b, c}}}}, mArr([]MV{av, bv, cv})
+		}
+		return &MNode{Op: nCall, Name: "cat", Kids: []*MNode{a, b, c}}, mArr([]MV{av, bv, cv})
 	case choice == 9 && want == wAny && g.has("pair"): // two arguments, evaluated left to right
 		a, av := g.build(1+g.s.Intn(3), d+1)
 		b, bv := g.build(1+g.s.Intn(3), d+1)
@@ -939,14 +985,16 @@ type sessSample struct {
 
 // drawNames varies, per run, how the data names and locals are spelt: pairs that differ only in
 // case, names outside ASCII, a digit or a second $ after the $.
+const longName = "customer_shipping_address_postal_region_code_"
+
 func drawNames(s *Stream) {
-	sessNames[0] = []string{"x", "x", "x", "X", "名前"}[s.Intn(5)]
-	sessNames[1] = []string{"y", "y", "X", "Y", "x1"}[s.Intn(5)]
+	sessNames[0] = []string{"x", "x", "x", "X", "名前", longName + "1"}[s.Intn(6)]
+	sessNames[1] = []string{"y", "y", "X", "Y", "x1", longName + "2"}[s.Intn(6)]
 	if sessNames[1] == sessNames[0] {
 		sessNames[1] = "y"
 	}
-	sessLocals[1] = []string{"$b", "$b", "$A", "$1", "$中文"}[s.Intn(5)]
-	sessLocals[2] = []string{"$c", "$c", "$$", "$_c", "$a1"}[s.Intn(5)]
+	sessLocals[1] = []string{"$b", "$b", "$A", "$1", "$中文", "$" + longName + "a", "$顧客の配送先住所の郵便番号の地域コード一"}[s.Intn(7)]
+	sessLocals[2] = []string{"$c", "$c", "$$", "$_c", "$a1", "$" + longName + "b", "$顧客の配送先住所の郵便番号の地域コード二"}[s.Intn(7)]
 }
 
 func runSessions(rc *RunCtx) {
